@@ -66,7 +66,7 @@ def field_types(n, typing):
         return ["Tg<%d>" % i for i in range(n)]
     if typing == "same":
         return ["Tg<0>"] * n
-    return ["T"] * n  # generic
+    return ["T"] * n  # generic / generic_where
 
 
 def mk(named, names, vals):
@@ -81,10 +81,13 @@ def struct_case(cid, named, n, typing, forward):
     forward = forward is True
     names = ["f%d" % i for i in range(n)] if named else [str(i) for i in range(n)]
     tys = field_types(n, typing)
-    gen_decl = "<T>" if typing == "generic" else ""
-    inst = "<Tg<0>>" if typing == "generic" else ""
+    gen_decl = "<T>" if typing.startswith("generic") else ""
+    inst = "<Tg<0>>" if typing.startswith("generic") else ""
     body = ("{ " + ", ".join("pub %s: %s" % (a, t) for a, t in zip(names, tys)) + " }") if named else (
         "(" + ", ".join("pub " + t for t in tys) + ");")
+    if typing == "generic_where":
+        # the type's own where-clause (in its two syntactic positions) must be carried onto every impl
+        body = (" where T: Clone " + body) if named else (body[:-1] + " where T: Clone;")
     derives = [d for d, _ in BIN] + [d + "Assign" for d, _ in BIN] + [d for d, _ in MUL] + [d + "Assign" for d, _ in MUL] + \
               [d for d, _ in UN] + ["Sum"] + (["Product"] if forward else [])
     attrs = []
@@ -251,8 +254,10 @@ def run(chk, tier):
     nmax = 4 if thorough else 3
     for named in (False, True):
         for n in range(1, nmax + 1):
-            for typing in ("distinct", "same", "generic"):
+            for typing in ("distinct", "same", "generic", "generic_where"):
                 if typing == "distinct" and n > 3:
+                    continue
+                if typing == "generic_where" and n > 2 and not thorough:
                     continue
                 for forward in (False, True) + (("not",) if n <= 2 and (thorough or typing == "same") else ()):
                     cases.append(struct_case("s%d" % len(cases), named, n, typing, forward))
@@ -262,7 +267,7 @@ def run(chk, tier):
                 cases.append(scalar_only_case("s%d" % len(cases), named, n, generic))
                 if n <= 2:
                     cases.append(scalar_only_case("s%d" % len(cases), named, n, generic, spelled=True))
-    chk.part("structs", shapes="tuple/named x 1..%d fields" % nmax, typings=["distinct", "same", "generic<T>", "fields that support the operator with the scalar only (concrete and generic<T>)"],
+    chk.part("structs", shapes="tuple/named x 1..%d fields" % nmax, typings=["distinct", "same", "generic<T>", "generic<T> with a where-clause on the type", "fields that support the operator with the scalar only (concrete and generic<T>)"],
              modes=["scalar Mul-like", "scalar Mul-like spelled `not(forward)`", "forward"], programs=len(cases))
     e0 = len(cases)
     vk = ["unit", "t1", "t2", "n2"] + (["n1", "t3"] if thorough else [])
